@@ -107,6 +107,12 @@ def check_case(case, ctx):
             ctx.count("runs_after_in_place_mutation")
             ctx.count("history:" + kind)
             judge(case, ctx, now, successor=False, dataset=shared, after=kind)
+    if gen.digest(ds)[0] in "0123":
+        import random
+        A, Bt = gen.reshape_twins(random.Random(gen.digest(ds)))
+        for twin in (A, Bt):
+            ctx.count("reshape_twins_aggregated")
+            judge({**case, "ds": twin, "reshape_twins": [A, Bt]}, ctx, twin, successor=False)
     if len(elems) >= 2:
         ren = dict(zip(elems, elems[1:] + elems[:1]))
         ds2 = [[[ren[e] for e in b] for b in reversed(r)] for r in ds]
@@ -184,6 +190,7 @@ def reach(counters, tier, info):
     for name, key, need in [("consensuses judged", "accepted", 2000 * k), ("cases with at least one equality", "with_equality", 500 * k),
                             ("cases with a pair never ranked together", "unranked_driven", 300 * k),
                             ("same-shape successor datasets aggregated by the same object", "same_shape_successors", 1500 * k),
+                            ("reshape twins (same matrix content, other shape) aggregated in a row", "reshape_twins_aggregated", 400 * k),
                             ("Dataset objects aggregated again after an in-place mutation", "runs_after_in_place_mutation", 1500 * k),
                             ("... where the step is remove_empty_rankings", "history:remove_empty", 60 * k),
                             ("datasets of 63-1025 elements / 40-257 rankings judged (vectorised reference)", "xlarge_judged",
